@@ -664,6 +664,11 @@ class Registry:
         return True
 
     def opaque_eq(self, interp, a, b):
+        # an interface may name an attribute that stands for the value of its objects (`eq_attr`):
+        # two such objects are equal iff that attribute is
+        ea = getattr(a._pv_iface, 'eq_attr', None)
+        if ea is not None and isinstance(b, Opaque) and getattr(b._pv_iface, 'eq_attr', None) == ea:
+            return interp.eq(self.opaque_getattr(interp, a, ea), self.opaque_getattr(interp, b, ea))
         return NotImplemented
 
     def opaque_iter(self, interp, o):
